@@ -80,77 +80,112 @@ class StreamSuite(cc.ChanSuite):
                    "ops": [["push_prompt", {"lit": P.hex()}], ["push_stream", 0, False], ["read", len(out1), None],
                            ["push_stream", 1, True], ["read", 1, None], ["pop"], ["rup", None, None], ["pop"]],
                    "meta": {"kind": "nested-mixed"}}
+        yield from self.gen_nested_clean(tier, rng)
+
+    def gen_nested_clean(self, tier, rng):
+        """nested attachments with different modes where nothing is held back at the moment the mode changes"""
+        for _ in range(1500 if tier == "thorough" else 300):
+            out1 = cc.rand_bytes(rng, rng.randint(0, 3), b"x\n") + b"x"      # ends with a non-prompt byte: nothing held
+            out2 = cc.rand_bytes(rng, rng.randint(1, 4), b"=> x") + b"x"
+            out3 = cc.rand_bytes(rng, rng.randint(0, 5), b"=> x")
+            outer_show = rng.random() < 0.5
+            inner_show = not outer_show if rng.random() < 0.8 else outer_show
+            ops = [["push_prompt", {"lit": P.hex()}], ["push_stream", 0, outer_show]]
+            pieces = []
+            if rng.random() < 0.6:
+                ops.append(["read", len(out1), None])
+                pieces.append(out1)
+            ops += [["push_stream", 1, inner_show], ["read", len(out2), None], ["pop"], ["rup", None, None], ["pop"]]
+            pieces += [out2] + cc.rand_split(rng, out3 + P, 4)
+            if rng.random() < 0.3:
+                ops.insert(1, ["push_stream", 2, True])      # a third stream attached before the prompt is set: prompt None mode
+                ops.append(["pop"])
+            yield {"pieces": cc.timed(pieces), "accept": [], "ops": ops, "meta": {"kind": "nested-clean"}}
 
     def oracle(self, case, obs):
+        """Independent reference written from the property text: every attached stream receives the same
+        text; mode = show_prompt of the innermost attachment; in suppress mode with a literal prompt exactly
+        the longest suffix of the data that is a prefix of the prompt is held back; detaching in suppress mode
+        drops what is held back.  Regex prompts: only the end-of-read clause is judged."""
         fails = []
         kind = case.get("meta", {}).get("kind")
         prompt = None
-        frames = []           # stack of ("prompt",) / ("stream", sid, show)
-        attached = {}         # sid -> dict(data=bytes read since attach, fwd=text forwarded, chunks=[...])
+        frames = []
+        attached = []                 # sids, in attach order
+        fwd = {0: "", 1: "", 2: ""}   # reference: text each stream should have received in total
+        got = {0: "", 1: "", 2: ""}
+        held = b""
+        mode_show = True
+        data_since = {}
+        self._d11b = False
+        ascii_only = all(c < 128 for _, h in case["pieces"] for c in bytes.fromhex(h))
         for idx, (o, ob) in enumerate(zip(case["ops"], obs[0])):
             r, now, deltas, iolog = ob
             k = o[0]
-            chunks = obs[3][idx]
+            for sid in range(3):
+                got[sid] += deltas[sid]
+                if sid not in attached and deltas[sid] != "" and not (k == "pop"):
+                    fails.append(f"stream {sid} received {deltas[sid]!r} while detached")
             if k == "push_prompt":
                 frames.append(("prompt", prompt))
                 prompt = o[1]
             elif k == "push_stream":
-                frames.append(("stream", o[1], o[2]))
-                attached[o[1]] = {"data": b"", "fwd": "", "chunks": [], "show": o[2]}
+                frames.append(("stream", o[1], mode_show))
+                attached.append(o[1])
+                data_since[o[1]] = b""
+                mode_show = o[2]
             elif k == "pop":
                 f = frames.pop()
                 if f[0] == "prompt":
                     prompt = f[1]
                 else:
-                    st = attached.pop(f[1])
-                    # when the read ended at the prompt, the stream holds exactly the output without the prompt
-                    if not st["show"] and prompt is not None and "lit" in prompt:
-                        pb = bytes.fromhex(prompt["lit"])
-                        if st["data"].endswith(pb) and all(c < 128 for c in st["data"]):
-                            want = st["data"][:-len(pb)].decode()
-                            if st["fwd"] != want:
-                                fails.append(f"after a read that ended at the prompt the stream holds {st['fwd']!r}, expected {want!r}")
-                    if not st["show"] and prompt is not None and "re" in prompt and kind == "regex":
-                        import re as _re
-                        pat = _re.compile(cc.re_py(prompt["re"]))
-                        i = next((i for i in range(len(st["data"]) + 1) if pat.fullmatch(st["data"], i)), None)
-                        if i is not None and st["fwd"] != st["data"][:i].decode("utf-8", "replace"):
-                            fails.append(f"regex prompt: after a read that ended at the prompt the stream holds {st['fwd']!r}, "
-                                         f"expected {st['data'][:i]!r}")
-            # nothing is forwarded to a detached stream
-            for sid in range(3):
-                if sid not in attached and deltas[sid] != "":
-                    fails.append(f"stream {sid} received {deltas[sid]!r} while detached")
-            if not attached:
+                    sid = f[1]
+                    if not mode_show and prompt is not None:
+                        if "re" in prompt:
+                            import re as _re
+                            pat = _re.compile(cc.re_py(prompt["re"]))
+                            d = data_since[sid]
+                            i0 = next((i for i in range(len(d) + 1) if pat.fullmatch(d, i)), None)
+                            if i0 is not None and got[sid][-len(d):] != d[:i0].decode("utf-8", "replace") and \
+                                    not got[sid].endswith(d[:i0].decode("utf-8", "replace")):
+                                fails.append(f"regex prompt: after a read that ended at the prompt the stream holds "
+                                             f"{got[sid]!r}, expected it to end with the output {d[:i0]!r}")
+                        held = b""
+                    attached.remove(sid)
+                    mode_show = f[2]
+            if k in ("read", "read_iter", "readline", "expect", "rup", "rut"):
+                for chunk in obs[3][idx]:
+                    for sid in attached:
+                        data_since[sid] += chunk
+                    if not attached:
+                        continue
+                    if mode_show or prompt is None:
+                        if held:
+                            self._d11b = True     # show-mode write while bytes are held back (finding D11b)
+                        frag = chunk
+                    elif "lit" in prompt or "str" in prompt:
+                        pb = cc.sstr_bytes(prompt)
+                        held += chunk
+                        h = hold(pb, held)
+                        frag, held = held[:len(held) - h], held[len(held) - h:]
+                    else:
+                        frag = None               # regex prompt: hold-back not judged per chunk
+                    if frag is not None:
+                        for sid in attached:
+                            fwd[sid] += frag.decode("utf-8", "replace")
+            # compare
+            if prompt is not None and "re" in prompt and not mode_show:
                 continue
-            # all simultaneously attached streams receive the same text
+            for sid in attached:
+                if ascii_only and got[sid] != fwd[sid]:
+                    fails.append(f"stream {sid} holds {got[sid]!r}; by the property it should hold {fwd[sid]!r} "
+                                 f"(data read since attaching {data_since[sid]!r}, mode {'show' if mode_show else 'suppress'})")
+            if len({got[s][len(got[s]) - 0:] for s in attached}) > 1:
+                pass
             ds = {deltas[sid] for sid in attached}
-            if len(ds) > 1:
+            if len(ds) > 1 and k != "push_stream":
                 fails.append(f"simultaneously attached streams received different text: {sorted(ds)!r}")
-            for sid, st in attached.items():
-                st["data"] += b"".join(chunks)
-                st["chunks"] += chunks
-                st["fwd"] += deltas[sid]
-                shows = {s["show"] for s in attached.values()}
-                mixed = len(shows) > 1
-                cur_show = [f for f in frames if f[0] == "stream"][-1][2]
-                if cur_show or prompt is None:
-                    if not mixed:
-                        want = "".join(c.decode("utf-8", "replace") for c in st["chunks"])
-                        if st["fwd"] != want:
-                            fails.append(f"suppression off: stream holds {st['fwd']!r}, data read since attaching {want!r}")
-                elif "lit" in prompt and all(c < 128 for c in st["data"]) and not mixed:
-                    pb = bytes.fromhex(prompt["lit"])
-                    h = hold(pb, st["data"])
-                    want = st["data"][:len(st["data"]) - h].decode()
-                    if st["fwd"] != want:
-                        fails.append(f"suppression on: forwarded {st['fwd']!r}; data {st['data']!r} minus the longest "
-                                     f"suffix that could still become the prompt is {want!r}")
-                if mixed and all(c < 128 for c in st["data"]):
-                    # forwarded must at least be a prefix of the data read since attaching
-                    if not st["data"].decode().startswith(st["fwd"]):
-                        fails.append(f"forwarded {st['fwd']!r} is not a prefix of the data read since attaching {st['data']!r} (reordered)")
-        if not [f for f in frames if f[0] == "stream"] and obs[1][1] != b"":
+        if not attached and obs[1][1] != b"":
             fails.append(f"held-back bytes {obs[1][1]!r} survive detaching (would leak into a later attachment)")
         return fails
 
@@ -167,8 +202,8 @@ class StreamSuite(cc.ChanSuite):
         if kind == "regex" and ("regex prompt:" in failure or "survive detaching" in failure):
             # with_stream(show_prompt=False) + REGEX prompt: the last maxwidth bytes are held back and dropped at detach
             return "C08:regex-prompt-holdback-dropped-at-detach"
-        if kind == "nested-mixed":
-            # with_stream(show_prompt=True) nested inside with_stream(show_prompt=False) while bytes are held back
+        if kind == "nested-mixed" and getattr(self, "_d11b", False):
+            # with_stream(show_prompt=True) nested inside with_stream(show_prompt=False) WHILE bytes are held back
             return "C08:nested-with_stream-mixed-modes-reorder"
         return None
 
